@@ -306,10 +306,10 @@ def r03_5(run, model):
 
 
 def run(run, model):
-    r03_1(run, model)
-    r03_2(run, model)
-    r03_3(run, model)
-    r03_4(run, model)
-    r03_5(run, model)
-    c07.r07_4(run, model)
+    run.try_rule(r03_1, model)
+    run.try_rule(r03_2, model)
+    run.try_rule(r03_3, model)
+    run.try_rule(r03_4, model)
+    run.try_rule(r03_5, model)
+    run.try_rule(c07.r07_4, model)
     run.assume("constraint generation in check.rs is taken as given; only the gates, the unifier and the pattern/expected-type plumbing are decided")
